@@ -104,7 +104,13 @@ class KernelSim(WorldBase):
             cut = g.randint(1, max(1, len(flows) - 1)) if g.random() < 0.5 else None
             if g.random() < 0.35:
                 flows = [dict(fl, always_swizzle=True) for fl in flows]
+            # tiled executions whose output keeps its un-tiled rank (populated once per tile, tile after tile)
+            flows = [dict(fl, z_untiled=True) if fl.get("tile") and "splits" not in fl["tile"] and g.random() < 0.4 else fl
+                     for fl in flows]
+            scan_at = g.randrange(len(flows)) if flows and g.random() < 0.4 else None
             for i, flow in enumerate(flows):
+                if scan_at is not None and i == scan_at:
+                    evs.append(["scan", {"name": g.choice(ops)[0]}])
                 if cut is not None and i == cut:
                     # the program updates an operand in place between two executions
                     nm, idx = g.choice(ops)
@@ -143,6 +149,20 @@ class KernelSim(WorldBase):
                 self._gen_faults(f, s, cfg["faults"])
                 evs.append(["session", s])
             evs.append(["session", dict(target, role="target", ncu=g.choice(THRESHOLDS))])
+            if g.random() < 0.3:
+                B, Kk = g.randint(1, 3), g.randint(2, 6)
+                ent = [[[b, k], g.choice([1, 2, 3])] for b in range(B) for k in range(Kk) if g.random() < 0.6]
+                idiom = g.choice([1, 2])
+                evs.append(["proj", {"dims": [B, Kk], "ent": ent, "off": g.choice([0, 1, 3]), "interval": None, "idiom": idiom,
+                                     "start_pos": None, "ncu": g.choice(THRESHOLDS), "dense_outer": False,
+                                     "dst": "M", "prebuilt": g.random() < 0.6}])
+            if g.random() < 0.3:
+                nd = g.randint(1, 2)
+                dims = [g.randint(2, 4) for _ in range(nd)]
+                ent = [[list(pt), g.choice([1, 2, 3])] for pt in __import__("itertools").product(*[range(d) for d in dims])
+                       if g.random() < 0.6]
+                evs.append(["rename", {"dims": dims, "ent": ent, "old": ["X", "Y"][:nd], "new": ["P", "Q"][:nd],
+                                       "via": g.choice(["setRankIds", "setRankIds", "fromFiber"])}])
             if g.random() < 0.4:
                 kinds = ["add_bb", "add_bs", "add_sb", "mul_bb", "mul_bs", "mul_sb", "iadd_b", "iadd_s", "imul_b", "imul_s",
                          "set_b", "set_s"]
@@ -180,6 +200,10 @@ class KernelSim(WorldBase):
                 to = g.random() < 0.5
                 for t in (2, 1000, g.choice(THRESHOLDS)):
                     evs.append(["flat", {"dims": [M, Kk, N], "ent": ent, "ncu": t, "traced_outer": to}])
+            if g.random() < 0.4:
+                S = g.randint(2, 7)
+                mk = lambda: [[c, g.choice([1, 2, 3])] for c in range(S) if g.random() < 0.6]
+                evs.append(["lazytime", {"S": S, "a": mk(), "b": mk(), "two": g.random() < 0.6, "ncu": g.choice(THRESHOLDS)}])
             if g.random() < 0.5:
                 # projected fibers (project_i traces), the two idioms the library's tests use under collection
                 B, Kk = g.randint(1, 3), g.randint(2, 7)
@@ -193,6 +217,7 @@ class KernelSim(WorldBase):
                     iv = [lo, g.randint(lo + 1, Kk + off + 2)]
                 idiom = g.choice([1, 2, 3])
                 dstrank = g.choice(["M", "M", "K"])
+                prebuilt = g.random() < 0.3
                 dense_outer = False
                 sp = g.choice([None, 0, 1]) if (idiom == 1 and iv is None) else None
                 if idiom == 3:
@@ -209,7 +234,7 @@ class KernelSim(WorldBase):
                 for t in (2, 1000, g.choice(THRESHOLDS)):
                     evs.append(["proj", {"dims": [B, Kk], "ent": ent, "off": off, "interval": iv, "idiom": idiom,
                                          "start_pos": sp, "ncu": t, "dense_outer": idiom == 3 and dense_outer,
-                                         "dst": dstrank}])
+                                         "dst": dstrank, "prebuilt": idiom in (1, 2) and prebuilt}])
             if False and g.random() < 0.5:
                 # convolution by projection: project_i traces, matched ranks.  DISABLED: under collection the
                 # library needs the source rank matched to the destination rank *before* the destination rank is
@@ -223,6 +248,17 @@ class KernelSim(WorldBase):
                     evs.append(["conv", {"W": W, "I": I, "w": wv, "i": iv, "ncu": t}])
             creg = [x[:2] + [True] for x in reg]
             for _ in range(2):
+                evs.append(["session", {"role": "consume", "flow": flow, "prefix": "c", "reg": creg,
+                                        "ncu": g.choice(THRESHOLDS), "mask": g.getrandbits(48), "end": "normal"}])
+            if g.random() < 0.4:
+                # the program updates an operand in place (an element somewhere in the middle) and measures again
+                out_, ops_ = K.case_spec(case)
+                for _ in range(g.randint(1, 2)):
+                    nm, idx = g.choice(ops_)
+                    evs.append(["touch", {"name": nm, "point": [g.randrange(8) for _ in idx], "v": g.choice([1, 2, 3])}])
+                for t in (2, g.choice(THRESHOLDS)):
+                    evs.append(["session", {"role": "sweep", "flow": flow, "prefix": "s", "reg": reg, "ncu": t,
+                                            "end": "normal"}])
                 evs.append(["session", {"role": "consume", "flow": flow, "prefix": "c", "reg": creg,
                                         "ncu": g.choice(THRESHOLDS), "mask": g.getrandbits(48), "end": "normal"}])
             return evs
@@ -280,6 +316,12 @@ class KernelSim(WorldBase):
             for model in ("two-finger", "skip-ahead", "leader-follower"):
                 for m in masks:
                     evs.append(["pairs", {"pairs": pairs, "outer": outer, "model": model, "mask": m}])
+            if g.random() < 0.6:
+                # the same fibers walked tile-wise: only coordinates below hi are wanted
+                hi = g.randint(1, S)
+                for model in ("two-finger", "skip-ahead"):
+                    for m in (0, (1 << 48) - 1, g.getrandbits(48)):
+                        evs.append(["pairs", {"pairs": pairs, "outer": outer, "model": model, "mask": m, "hi": hi}])
         return evs
 
     def _plan_c19_swaps(self, g):
@@ -359,6 +401,10 @@ class KernelSim(WorldBase):
                 return self.ev_proj(ev[1])
             if kind == "payops":
                 return self.ev_payops(ev[1])
+            if kind == "rename":
+                return self.ev_rename(ev[1])
+            if kind == "lazytime":
+                return self.ev_lazytime(ev[1])
             if kind == "swaps":
                 return self.ev_swaps(ev[1])
             if self.case is None:
@@ -367,6 +413,8 @@ class KernelSim(WorldBase):
                 return self.ev_run(ev[1])
             if kind == "touch":
                 return self.ev_touch(ev[1])
+            if kind == "scan":
+                return self.ev_scan(ev[1])
             if kind == "session":
                 return self.ev_session(ev[1])
             raise Skip("unknown")
@@ -402,8 +450,27 @@ class KernelSim(WorldBase):
         self.case = dict(self.case, vals=dict(self.case["vals"], **{nm: sorted(vals)}))
         self.ref = K.dense(self.case)
         self.snap[nm] = ob.snapshot(t)
+        self.sweep.pop("files", None)        # traces of later sessions are compared among themselves
         self.probe("operand_updated_between_runs")
         return {"touched": nm}
+
+    def ev_scan(self, a):
+        """between two executions the program walks an operand with plain loops (e.g. to print or checksum it);
+        nothing of that may matter to a later execution"""
+        t = (self.tensors or {}).get(a["name"])
+        if t is None:
+            raise Skip("no such operand")
+
+        def walk(f):
+            n = 0
+            for c, p in f:
+                n += 1
+                if isinstance(p, Fiber):
+                    n += walk(p)
+            return n
+        n = walk(t.getRoot()) if isinstance(t.getRoot(), Fiber) else 0
+        self.probe("operand_walked_between_runs")
+        return {"elements": n}
 
     def _check_flow(self, flow):
         case = self.case
@@ -686,6 +753,148 @@ class KernelSim(WorldBase):
                        f"{'missing' if b is None else str(len(b.splitlines())) + ' lines'}")
             if self.nsess > 3:
                 self.probe("target_after_history")
+
+    # ---- C15: a tensor that was looked at under one set of rank names, renamed, and then measured
+    def ev_rename(self, a):
+        """walk a tensor with plain loops outside any session, rename its ranks (Tensor.setRankIds, or a bare fiber
+        wrapped by Tensor.fromFiber), then run a traced plain loop nest in a session: iteration counts and the rows'
+        coordinates go to the ranks' current names"""
+        dims = a["dims"]
+        old_ids, new_ids = a["old"], a["new"]
+        ent = [(tuple(p), v) for p, v in a["ent"]]
+
+        def walk(f):
+            n = 0
+            for c, p in f:
+                if isinstance(p, Fiber):
+                    n += walk(p)
+                else:
+                    n += 1
+            return n
+        if a.get("via") == "fromFiber":
+            t0 = Tensor(rank_ids=old_ids, shape=dims)
+            for pt, v in ent:
+                r = t0.getPayloadRef(*pt)
+                r <<= v
+            bare = t0.getRoot().copy(preserve_owner=False) if hasattr(Fiber, "copy") else t0.getRoot()
+            walk(bare)
+            T = Tensor.fromFiber(new_ids, bare, shape=dims)
+        else:
+            T = Tensor(rank_ids=old_ids, shape=dims)
+            for pt, v in ent:
+                r = T.getPayloadRef(*pt)
+                r <<= v
+            walk(T.getRoot())
+            T.setRankIds(new_ids)
+        self.nsess += 1
+        self.kexec += 1
+        bodies = {r: 0 for r in new_ids}
+        prefix = os.path.join(self.scratch, f"rn{self.nsess}")
+        err = None
+        iters = {}
+        self.fs.reset_counters()
+        try:
+            Metrics.beginCollect(prefix)
+            for r in new_ids:
+                Metrics.trace(r, "iter")
+
+            def nest(f, d):
+                for c, p in f:
+                    bodies[new_ids[d]] += 1
+                    if isinstance(p, Fiber):
+                        nest(p, d + 1)
+            nest(T.getRoot(), 0)
+        except Exception as e:
+            err = f"{type(e).__name__}: {str(e)[:60]}"
+        finally:
+            try:
+                Metrics.endCollect()
+            except Exception as e:
+                err = err or f"endCollect {type(e).__name__}"
+        self.probe("renamed_tensor_measured")
+        if err:
+            self.V("C15", "C15.transparent", "rename", f"the traced loop nest over the renamed tensor raised {err}")
+            return {}
+        for r in new_ids:
+            path = f"{prefix}-{r}-iter.csv"
+            n = Compute.numIters(path) if os.path.exists(path) and os.path.getsize(path) else 0
+            if n != bodies[r]:
+                self.V("C15", "C15.iter-count", "rename",
+                       f"rank {r} (called {old_ids[new_ids.index(r)]} when the tensor was first walked, outside any "
+                       f"session): numIters = {n}, loop bodies executed = {bodies[r]}")
+        return {"bodies": bodies}
+
+    # ---- C16: when a lazy co-iteration object is constructed does not matter
+    def ev_lazytime(self, a):
+        """z_m << (a_m & b_m) (or z_m << a_m), the loop object built (1) inside the session, right where it is walked,
+        (2) before beginCollect(): same result, byte-identical traces"""
+        S = a["S"]
+        av, bv = dict(map(tuple, a["a"])), dict(map(tuple, a["b"]))
+
+        def build():
+            A = Tensor(rank_ids=["M"], shape=[S])
+            B = Tensor(rank_ids=["M"], shape=[S])
+            for t, vals in ((A, av), (B, bv)):
+                for c in sorted(vals):
+                    r = t.getPayloadRef(c)
+                    r <<= vals[c]
+            Z = Tensor(rank_ids=["M"], shape=[S])
+            return A, B, Z
+
+        def loop_of(A, B, Z):
+            src = (A.getRoot() & B.getRoot()) if a["two"] else A.getRoot()
+            return Z.getRoot() << src
+        outs = []
+        for early in (False, True):
+            self.nsess += 1
+            self.kexec += 1
+            self.fs.reset_counters()
+            A, B, Z = build()
+            prefix = os.path.join(self.scratch, "lz")
+            loop = loop_of(A, B, Z) if early else None
+            err = None
+            try:
+                Metrics.beginCollect(prefix)
+                Metrics.setNumCachedUses(a["ncu"])
+                for typ in ["iter", "populate_1", "populate_read_0", "populate_write_0"] + \
+                        (["intersect_2", "intersect_3"] if a["two"] else []):
+                    Metrics.trace("M", typ)
+                if loop is None:
+                    loop = loop_of(A, B, Z)
+                for m, (z_ref, v) in loop:
+                    z_ref += (v[0] * v[1]) if a["two"] else v
+            except Exception as e:
+                err = f"{type(e).__name__}: {str(e)[:60]}"
+            finally:
+                try:
+                    Metrics.endCollect()
+                except Exception as e:
+                    err = err or f"endCollect {type(e).__name__}"
+            files = {}
+            for p in sorted(self.fs.written):
+                if os.path.exists(p):
+                    with open(p) as fh:
+                        files[os.path.basename(p)] = fh.read()
+            outs.append((err, ob.content(Z.getRoot()), files))
+        self.probe("lazy_object_built_before_session")
+        if self.prop != "C16":
+            return {}
+        (e0, c0, f0), (e1, c1, f1) = outs
+        if e0 or e1:
+            if bool(e0) != bool(e1):
+                self.V("C16", "C16.no-exception", "lazytime",
+                       f"loop object built inside the session: {e0 or 'fine'}; built before beginCollect(): {e1 or 'fine'}")
+            return {}
+        if c0 != c1:
+            self.V("C16", "C16.rows", "lazytime", f"results differ: {c0} (built inside) vs {c1} (built before the session)")
+        if f0 != f1:
+            bad = [n for n in sorted(set(f0) | set(f1)) if f0.get(n) != f1.get(n)]
+            n0 = bad[0]
+            self.V("C16", "C16.rows", "lazytime",
+                   f"trace {n0}: {len((f0.get(n0) or '').splitlines())} lines when the populate object is built inside the "
+                   f"session, {len((f1.get(n0) or '').splitlines())} lines when it is built before beginCollect() "
+                   f"(a = {sorted(av)}, b = {sorted(bv)})")
+        return {}
 
     # ---- C15: every counted payload operator, all operand spellings, zero and non-zero values
     def ev_payops(self, a):
@@ -1124,6 +1333,22 @@ class KernelSim(WorldBase):
         exp_proj, exp_outer, exp_inner = [], [], []
         got_seq, want_seq = [], []
         err = None
+        prebuilt = {}
+        if a.get("prebuilt"):
+            # the projected views are built before the session begins and walked inside it
+            for b0, ak0 in zip(a_b.coords, a_b.payloads):
+                if not any(Payload.get(q) != 0 for q in ak0.payloads):
+                    continue        # the outer loop never reaches an all-default fiber
+                kw0 = {"trans_fn": (lambda k, off=off: k + off), "rank_id": dst}
+                if iv is not None:
+                    kw0["interval"] = iv
+                if idiom == 1:
+                    if sp is not None:
+                        kw0["start_pos"] = sp
+                    prebuilt[b0] = ak0.project(**kw0)
+                else:
+                    prebuilt[b0] = ak0.project(tick=True, **kw0)
+            self.probe("projection_built_before_session")
         Metrics.beginCollect(prefix)
         try:
             Metrics.setNumCachedUses(a["ncu"])
@@ -1157,7 +1382,9 @@ class KernelSim(WorldBase):
                 kw = {"trans_fn": (lambda k, off=off: k + off), "rank_id": dst}
                 if iv is not None:
                     kw["interval"] = iv
-                if idiom == 1:
+                if b in prebuilt:
+                    it = prebuilt[b] if idiom == 1 else prebuilt[b].iterOccupancy(tick=False)
+                elif idiom == 1:
                     if sp is not None:
                         kw["start_pos"] = sp
                     it = a_k.project(**kw)
@@ -1172,6 +1399,16 @@ class KernelSim(WorldBase):
             Metrics.endCollect()
         except Exception as e:
             err = err or f"endCollect {type(e).__name__}"
+        if self.prop == "C15":
+            # the same walk with collection off is the model sequence: collection must be transparent
+            if err:
+                self.V("C15", "C15.transparent", "proj",
+                       f"the walk over projected fibers raised {err} under collection (idiom {idiom}, views built "
+                       f"{'before' if a.get('prebuilt') else 'inside'} the session)")
+            elif got_seq != want_seq:
+                self.V("C15", "C15.transparent", "proj", f"projected walk delivered {got_seq} under collection, expected {want_seq}")
+            self.probe("proj_checked:c15")
+            return {"err": err}
         if self.prop != "C16":
             return {"err": err}
         if err:
@@ -1469,14 +1706,21 @@ class KernelSim(WorldBase):
         model = a["model"]
         n = len(pairs)
         self.kexec += 1
+        tile_hi = a.get("hi") if model != "leader-follower" else None
+        full_pairs = pairs
+        if tile_hi is not None:
+            # a tiled walk: for k, _ in (fa & fb).iterRange(0, hi) - the merge stops at the first match at or beyond hi;
+            # the models see (and are judged on) what was accessed up to there
+            pairs = [accessed_until(A, B, tile_hi) for A, B in pairs]
+            self.probe("pairs_tiled_walk")
         if model == "two-finger":
             obj, types, want = TwoFingerIntersector(), ["intersect_0", "intersect_1"], sum(tf_ref(A, B) for A, B in pairs)
         elif model == "skip-ahead":
             obj, types, want = SkipAheadIntersector(), ["intersect_0", "intersect_1"], sum(sa_ref(A, B) for A, B in pairs)
         else:
             obj, types, want = LeaderFollowerIntersector(), ["intersect_0"], sum(len(A) for A, B in pairs)
-        fa = [Fiber(list(A), [1] * len(A)) for A, B in pairs]
-        fb = [Fiber(list(B), [1] * len(B)) for A, B in pairs]
+        fa = [Fiber(list(A), [1] * len(A)) for A, B in full_pairs]
+        fb = [Fiber(list(B), [1] * len(B)) for A, B in full_pairs]
         for f in fa + fb:
             f.getRankAttrs().setId("K")
         outer = a.get("outer", 1)
@@ -1497,6 +1741,8 @@ class KernelSim(WorldBase):
                     it = Fiber.intersection(fa[j], fb[j], style="leader-follower")
                 else:
                     it = fa[j] & fb[j]
+                    if tile_hi is not None:
+                        it = it.iterRange(0, tile_hi)
                 for _ in it:
                     pass
                 started[0] = True
@@ -1621,6 +1867,22 @@ def hash_stable(s):
     for ch in s:
         h = (h * 131 + ord(ch)) % 1000003
     return h
+
+
+def accessed_until(A, B, hi):
+    """the elements of A and B a two-finger merge has fetched when it stops at the first match >= hi (or at the end)"""
+    i = j = 0
+    while i < len(A) and j < len(B):
+        if A[i] == B[j]:
+            if A[i] >= hi:
+                return list(A[:i + 1]), list(B[:j + 1])
+            i += 1
+            j += 1
+        elif A[i] < B[j]:
+            i += 1
+        else:
+            j += 1
+    return list(A[:i + 1]), list(B[:j + 1])
 
 
 def tf_ref(A, B):
